@@ -54,7 +54,7 @@ impl Property for Total {
     fn budget(&self, tier: Tier) -> Budget {
         Budget {
             cases: tier.pick(150_000, 10_000_000),
-            tape_len: 700,
+            tape_len: 4000,
         }
     }
     fn decode(&self, t: &mut Tape<'_>) -> TotalCase {
@@ -392,7 +392,7 @@ impl Property for Valid {
     fn budget(&self, tier: Tier) -> Budget {
         Budget {
             cases: tier.pick(80_000, 5_000_000),
-            tape_len: 700,
+            tape_len: 3500,
         }
     }
     fn decode(&self, t: &mut Tape<'_>) -> ValidCase {
